@@ -89,8 +89,19 @@ def sgn(rng):
 def gen_errz(rng, P, m, prev, kind=None):
     """slack-error vector relative to the previous one: ties on both thresholds included."""
     θ, δ = P['rel_penalty_increase_threshold'], P['dual_tolerance']
-    kind = kind or rng.choice(['small', 'tie_dual', 'big', 'shrink', 'tie_theta', 'mixed', 'zero'])
+    kind = kind or rng.choice(['small', 'tie_dual', 'big', 'shrink', 'tie_theta', 'mixed', 'zero', 'resurge',
+                               'resurge'])
     out = []
+    if kind == 'resurge':
+        # after a (possibly small, non-terminating) iteration: one component large again, the others
+        # shrunk by more than the ratio relative to the *previous* iteration — whether they grow depends
+        # on which earlier error vector the update compares with
+        hot = rng.randrange(m) if m else 0
+        for i in range(m):
+            pe = abs(prev[i]) if prev and math.isfinite(prev[i]) and prev[i] != 0 else 1.0
+            v = max(4 * δ, pe) * pow2(rng, 0, 2) if i == hot else pe * θ * pow2(rng, -3, 0)
+            out.append(v * sgn(rng))
+        return out
     for i in range(m):
         pe = abs(prev[i]) if prev and math.isfinite(prev[i]) and prev[i] != 0 else 1.0
         if kind == 'zero':
@@ -311,6 +322,39 @@ def excluded_points(rng):
     return ops
 
 
+def gen_stale_error_history(rng):
+    """Histories in which the violation drops to ≤ dual_tolerance in an iteration that does not end the
+    solve and comes back afterwards: which *earlier* error vector the next penalty update compares with
+    then decides whether a component grows.  (spike → small → resurge, with arbitrary prefix)"""
+    P = default_params()
+    P['tolerance'] = pow2(rng, -12, -6)
+    P['dual_tolerance'] = δ = pow2(rng, -10, -4)
+    # growth of a component is Σ_i·max(Δ|e_i|/‖e‖∞, 1): it is visible only where Δ|e_i| > ‖e‖∞, so Δ is
+    # large and the resurging component stays within a small factor of the others
+    P['penalty_update_factor'] = rng.choice([16.0, 64.0, 256.0])
+    P['rel_penalty_increase_threshold'] = θ = rng.choice([0.25, 0.5, 0.5])
+    P['max_penalty'] = 2.0 ** 30
+    m = rng.choice([2, 2, 3])
+    lb, ub = gen_D(rng, m)
+    hot = rng.randrange(m)
+    script, prev = [], None
+    for j in range(rng.choice([0, 0, 1, 2])):
+        ez = gen_errz(rng, P, m, prev, kind=rng.choice(['big', 'shrink', 'tie_theta']))
+        ez = [e if abs(e) > δ else 2 * δ for e in ez]
+        script.append(entry(rng.choice(['Converged', 'MaxIter']), 1.0, ez)); prev = ez
+    spike = [(8 * δ * pow2(rng, 0, 3) if i == hot else rng.choice([0.0, δ * 2.0 ** -12])) * sgn(rng)
+             for i in range(m)]
+    small = [δ * pow2(rng, -2, 0) * sgn(rng) for i in range(m)]
+    res = [(δ * pow2(rng, 1, 2) if i == hot else abs(small[i]) * θ * pow2(rng, -1, 0)) * sgn(rng)
+           for i in range(m)]
+    script.append(entry('Converged', 1.0, spike))
+    script.append(entry(rng.choice(['Converged', 'MaxIter', 'NoProgress']), 1.0, small))
+    script.append(entry('Converged', 1.0, res))
+    script.append(entry('Converged', 0.0, [0.0] * m))
+    n = rng.choice([1, 2])
+    return op_line(P, 20, rng.random() < 0.3, m, 0, lb, ub, 0.0, [0.0] * m, None, [0.0] * n, [0.0] * m, script)
+
+
 def gen_ops(rng, n):
     thorough = n >= 20000
     ops = repaired_points(rng) + excluded_points(rng)
@@ -324,6 +368,8 @@ def gen_ops(rng, n):
         ops.append(gen_random(rng, exact=rng.random() < 0.7))
     for i in range(max(30, n // 100)):
         ops.append(gen_random(rng, exact=rng.random() < 0.8, max_len=100))
+    for i in range(max(40, n // 50)):
+        ops.append(gen_stale_error_history(rng))
     return ops
 
 
